@@ -231,7 +231,7 @@ class Analysis:
         if len(pl.proj) == 1 and isinstance(pl.proj[0], dict) and pl.proj[0].get("f") == 0:
             e = env.get(pl.local)
             if e is not None and e[0] == "ovf":
-                return e[1]
+                return e[1] if (e[1] is None or e[1][0] == "lin") else None
         # `(_t as Some).0` of checked_sub/checked_add: on the Some side the payload is the exact result
         if len(pl.proj) == 2 and isinstance(pl.proj[0], dict) and "v" in pl.proj[0] and isinstance(pl.proj[1], dict) and pl.proj[1].get("f") == 0:
             e = env.get(pl.local)
@@ -295,10 +295,14 @@ class Analysis:
             op = rv.ops[0] if rv.ops else None
             if op is not None:
                 val = self.lin_of_operand(op, env)
+                if val is None and op.place is not None and len(op.place.proj) == 1 and isinstance(op.place.proj[0], dict) and op.place.proj[0].get("f") == 0:
+                    e0 = env.get(op.place.local)
+                    if e0 is not None and e0[0] == "ovf" and e0[1] is not None and e0[1][0] == "sumres":
+                        val = e0[1]
                 if val is None and op.place is not None:
                     pl = op.place
                     e = env.get(pl.local) if pl.is_local() else None
-                    if e is not None and e[0] in ("cmp", "bool", "range", "alias", "ovf", "optlin"):
+                    if e is not None and e[0] in ("cmp", "bool", "range", "alias", "ovf", "optlin", "getopt"):
                         val = e
                     elif pl.is_local() and (pl.local in self.len_of_local):
                         val = ("alias", pl)
@@ -359,6 +363,11 @@ class Analysis:
                 else:
                     if b[1] == 0:
                         res = ("lin", a[1], a[2] - b[2])
+                if res is None and op.startswith("Add") and a[2] == 0 and b[2] == 0:
+                    # u + len(c) where `u + len(c) <= len(s)` was recorded when c was collected from s[u..]
+                    for e_ in env.values():
+                        if e_[0] == "sumle" and {a[1], b[1]} == {e_[1], e_[2]}:
+                            res = ("sumres", e_[3], e_[1])
                 if op.endswith("WithOverflow"):
                     val = ("ovf", res, op[:3], a, b) if res is not None else None
                 else:
@@ -375,8 +384,19 @@ class Analysis:
                     val = ("optlin", f_, 0 if j.get("variant") == "Ok" else 1)
         elif k == "discr":
             val = None
+            # `slice.get(i)` is Some exactly when i < len
+            if rv.place is not None and rv.place.is_local():
+                e_ = env.get(rv.place.local)
+                if e_ is not None and e_[0] == "getopt":
+                    val = ("cmp", "Lt", e_[2], ("lin", e_[1], 0))
         # apply
         self._kill(d, env, x)
+        if x in self.var_of_local and val is not None and val[0] == "sumres":
+            v = self.var_of_local[x]
+            self._reset_var(d, v)
+            d.add(v, val[1], 0)          # the sum is within the slice's length
+            d.add(val[2], v, 0)          # and not below its first summand
+            return
         if x in self.var_of_local:
             v = self.var_of_local[x]
             if val is not None and val[0] == "lin":
@@ -430,6 +450,11 @@ class Analysis:
             b_ = self.lin_of_operand(t.args[1], env)
             if a_ is not None and b_ is not None and b_[1] == 0:
                 dest_val = ("optlin", ("lin", a_[1], a_[2] - b_[2] if name == "checked_sub" else a_[2] + b_[2]))
+        if name == "get" and len(t.args) == 2 and ("slice" in callee or "Vec" in callee) and "Range" not in (t.j.get("callee_inst") or ""):
+            bl = self.base_local(t.args[0], env)
+            f_ = self.lin_of_operand(t.args[1], env)
+            if bl is not None and f_ is not None:
+                dest_val = ("getopt", self.len_of_local[bl], f_)
         if name == "branch" and "Try" in callee and t.args and t.args[0].place is not None and t.args[0].place.is_local():
             e_ = env.get(t.args[0].place.local)
             if e_ is not None and e_[0] == "optlin":
@@ -478,9 +503,21 @@ class Analysis:
                     dead = [k for k, ee in env.items() if _mentions(ee, {lv}, None)]
                     for k in dead:
                         del env[k]
+        sumle = None
+        if name == "collect" and t.args and t.dest is not None and t.dest.is_local() and t.dest.local in self.len_of_local:
+            sumle = self._collect_bound(t, env)
         if t.dest is not None and t.dest.is_local():
             x = t.dest.local
             self._kill(d, env, x)
+            if sumle is not None:
+                lvd = self.len_of_local[x]
+                self._reset_len(d, lvd)
+                if sumle[0] == "const":
+                    d.add(lvd, sumle[1], -sumle[2])                       # len(dest) <= len(S) - c
+                else:
+                    d.add(lvd, sumle[1], 0)                                # len(dest) <= len(S)
+                    env[("sumle", x)] = ("sumle", sumle[2], lvd, sumle[1])  # u + len(dest) <= len(S)
+                return
             if x in self.var_of_local:
                 v = self.var_of_local[x]
                 if dest_val is not None and dest_val[0] == "lin":
@@ -499,6 +536,61 @@ class Analysis:
         elif t.dest is not None:
             # call result stored through a projection of a tracked local: unknown
             pass
+
+    _SHORTENING = ("take_while", "map", "filter", "filter_map", "skip_while", "take", "skip", "cloned", "copied", "rev", "enumerate", "map_while", "inspect", "peekable", "by_ref", "step_by", "fuse")
+
+    def _collect_bound(self, t, env):
+        """`s[lo..].iter().<adaptors that never add items>.collect()`: the collection is no longer than the slice, so
+        lo + len(result) <= len(s). Returns ("const", len-var of s, c) or ("var", len-var of s, var of lo) or None."""
+        fn = self.fn
+        o = prim.origin_of_operand(fn, t.args[0]).strip()        # named locals stay leaves (the range start is one)
+        cur = o
+        while cur.k == "call" and cur.a["name"] in self._SHORTENING and cur.kids:
+            cur = cur.kids[0].strip()
+        if not (cur.k == "call" and cur.a["name"] in ("iter", "into_iter") and cur.kids):
+            return None
+        src = cur.kids[0].strip()
+        lo = None
+        idx_term = src.a.get("term") if src.k == "call" and src.a["name"] == "index" else None
+        if src.k == "call" and src.a["name"] == "index" and len(src.kids) == 2:
+            rng = src.kids[1].strip()
+            if rng.k == "agg" and str(rng.a).endswith("RangeFrom") and len(rng.kids) == 1:
+                lo = rng.kids[0].strip()
+                src = src.kids[0].strip()
+            elif rng.k == "agg" and str(rng.a).endswith("RangeFull"):
+                src = src.kids[0].strip()
+            else:
+                return None
+        while src.k in ("ref", "deref") and src.kids:
+            src = src.kids[0].strip()
+        bl = src.a.get("idx") if src.k == "arg" else (src.a.get("local") if src.k == "var" else None)
+        if bl is None or bl not in self.len_of_local:
+            return None
+        lvs = self.len_of_local[bl]
+        if lo is None:
+            return ("const", lvs, 0)
+        if lo.k == "const" and isinstance(lo.a.get("v"), int):
+            return ("const", lvs, lo.a["v"])
+        if lo.k == "var" and lo.a.get("local") in self.var_of_local:
+            return ("var", lvs, self.var_of_local[lo.a["local"]])
+        # the provenance tree looks through single-definition named locals; the range's own operand says which variable it is
+        it = idx_term
+        if it is not None and len(it.args) == 2 and it.args[1].place is not None and it.args[1].place.is_local():
+            ds = [x for x in prim.local_defs(fn).get(it.args[1].place.local, []) if x[1] == "assign"]
+            if len(ds) == 1 and ds[0][2].rv is not None and ds[0][2].rv.k == "agg" and len(ds[0][2].rv.ops) == 1:
+                f_ = self.lin_of_operand(ds[0][2].rv.ops[0], env)
+                if f_ is None and ds[0][2].rv.ops[0].place is not None and ds[0][2].rv.ops[0].place.is_local():
+                    # a copy of a tracked variable made for the aggregate
+                    cl = ds[0][2].rv.ops[0].place.local
+                    cds = [x for x in prim.local_defs(fn).get(cl, []) if x[1] == "assign"]
+                    if len(cds) == 1 and cds[0][2].rv is not None and cds[0][2].rv.k == "use" and cds[0][2].rv.ops[0].place is not None and cds[0][2].rv.ops[0].place.is_local() and cds[0][2].rv.ops[0].place.local in self.var_of_local:
+                        # sound only if the variable was not reassigned since: it must be immutable (one definition)
+                        srcl = cds[0][2].rv.ops[0].place.local
+                        if len([x for x in prim.local_defs(fn).get(srcl, []) if x[1] != "partial"]) == 1:
+                            f_ = ("lin", self.var_of_local[srcl], 0)
+                if f_ is not None and f_[2] == 0 and f_[1] != 0:
+                    return ("var", lvs, f_[1])
+        return None
 
     def refine(self, d, cmp, truth):
         op, a, b = cmp[1], cmp[2], cmp[3]
@@ -567,7 +659,7 @@ class Analysis:
             if m.get("k") == "overflow" and cond.place is not None and len(cond.place.proj) == 1:
                 # the checked result is exact on the success edge; record range knowledge: result within the type
                 ee = env.get(cond.place.local)
-                if ee is not None and ee[0] == "ovf" and ee[1] is not None:
+                if ee is not None and ee[0] == "ovf" and ee[1] is not None and ee[1][0] == "lin":
                     ty = self._op_ty(Operand(m["a"]))
                     res = ee[1]
                     if ty in UNSIGNED:
@@ -718,13 +810,19 @@ def _mentions(e, vs, local):
     if k == "cmp":
         return e[2][1] in vs or e[3][1] in vs
     if k == "ovf":
-        return (e[1] is not None and e[1][1] in vs) or e[3][1] in vs or e[4][1] in vs
+        return (e[1] is not None and (e[1][1] in vs or (e[1][0] == "sumres" and e[1][2] in vs))) or e[3][1] in vs or e[4][1] in vs
+    if k == "sumres":
+        return e[1] in vs or e[2] in vs
     if k == "range":
         return any(f is not None and f[1] in vs for f in e[2])
     if k in ("alias", "alias_mut"):
         return local is not None and e[1].local == local
     if k == "optlin":
         return e[1][1] in vs
+    if k == "getopt":
+        return e[1] in vs or e[2][1] in vs
+    if k == "sumle":
+        return e[1] in vs or e[2] in vs or e[3] in vs
     if k == "ovfflag":
         return False
     return False
